@@ -44,7 +44,7 @@ FLOORS = {'quick': {'agent_steps': 10000, 'records_compared': 5000, 'empty_recor
                     'killed_children': 20, 'default_priority_runs': 200, 'big_many_systems_runs': 4, 'big_flush_batches': 4, 'collectors_attached_late': 100, 'late_collector_twin_runs': 100,
                     'reach:Collectors.AgentCollector.collect': 6500, 'reach:Collectors.FileCollector.execute': 4100,
                     'reach:Collectors.FileCollector.write_records': 1800},
-          'thorough': {'agent_steps': 1000000, 'file_steps': 500000, 'killed_children': 1500}}
+          'thorough': {'agent_steps': 750000, 'file_steps': 300000, 'killed_children': 970}}
 EXHAUSTIVE = {}
 
 OPENS = {}
